@@ -175,9 +175,10 @@ var props = map[string]*propConfig{
 		Families: []family{
 			{Name: "live-snapshots", Flags: map[string]string{"family": "live"}, Quick: 6000, Thorough: 1200000},
 			{Name: "damaged-at-rest", Flags: map[string]string{"family": "corruption"}, Quick: 20000, Thorough: 12000000},
+			{Name: "well-formed-files", Flags: map[string]string{"family": "wellformed"}, Quick: 4000, Thorough: 1200000},
 		},
 		QuickBudget: 90 * time.Second, ThoroughBudget: 12 * time.Minute, Chunk: 50,
-		Rule:        "live-snapshots: Parse is run on the bytes of the shared counter file after every scheduler step of a multi-process history with kills (every intermediate state: reserved-unlinked records, dead records, half-grown files) and compared with the independent decoder whenever that accepts the snapshot; damaged-at-rest: Parse on structurally damaged files (see C05) must return within a loop budget, and must agree with the independent decoder when the damage left the file well-formed. Claimed only for the clauses that meet the simulated schedule and disk; totality over all byte strings (random / coverage-guided) is not decided by this family",
+		Rule:        "live-snapshots: Parse is run on the bytes of the shared counter file after every scheduler step of a multi-process history with kills (every intermediate state: reserved-unlinked records, dead records, half-grown files) and compared with the independent decoder whenever that accepts the snapshot; damaged-at-rest: Parse on structurally damaged files (see C05) must return within a loop budget, and must agree with the independent decoder when the damage left the file well-formed; well-formed-files: Parse on the final files of the C10 histories (names of 1..4096 bytes of any content, stack names with method, closure and generic frames under ditto compression) must return exactly what the independent decoder and stack expander read. Claimed only for the clauses that meet the simulated schedule and disk; totality over all byte strings (random / coverage-guided) is not decided by this family",
 		Real:        []string{"internal/counter.Parse, DecodeStack (instrumented: loop budget)", "internal/counter writers producing the snapshots"},
 		Stub:        []string{"Go scheduler", "wall clock"},
 		Assumptions: []string{"refformat and refstack are the oracle", "two stored names that expand to the same text are not generated (the documentation does not say which wins)"},
